@@ -6,9 +6,11 @@ import (
 	"errors"
 	"fmt"
 	"strings"
+	"sync"
 	"time"
 
 	regexp2 "github.com/dlclark/regexp2/v2"
+	"github.com/dlclark/regexp2/v2/syntax"
 )
 
 // Compile-option bits used in witnesses.
@@ -32,12 +34,62 @@ func Compile(pattern string, opts int, copts int, extra ...regexp2.CompileOption
 		co = append(co, regexp2.OptionMaintainCaptureOrder())
 	}
 	co = append(co, extra...)
+	gateMu.RLock()
+	defer gateMu.RUnlock()
+	return compileLocked(pattern, co)
+}
+
+func compileLocked(pattern string, co []regexp2.CompileOption) (*regexp2.Regexp, error) {
 	re, err := regexp2.Compile(pattern, co...)
 	if err != nil {
 		return nil, err
 	}
 	re.MatchTimeout = DefaultTimeout
 	return re, nil
+}
+
+// gateMu serialises compiles that flip the process-global rewrite gate
+// (syntax.VerifDisableRewrites) against every other compile of the process.
+var gateMu sync.RWMutex
+
+// CompileGated compiles with the given rewrites switched off.
+func CompileGated(mask uint32, pattern string, opts int, copts int, extra ...regexp2.CompileOption) (*regexp2.Regexp, error) {
+	co := []regexp2.CompileOption{regexp2.RegexOptions(opts)}
+	if copts&COCodeGen != 0 {
+		co = append(co, regexp2.OptionIsCodeGen())
+	}
+	if copts&CONoASCIIBitmap != 0 {
+		co = append(co, regexp2.OptionDisableCharClassASCIIBitmap())
+	}
+	if copts&COMaintainOrder != 0 {
+		co = append(co, regexp2.OptionMaintainCaptureOrder())
+	}
+	co = append(co, extra...)
+	gateMu.Lock()
+	defer gateMu.Unlock()
+	syntax.VerifDisableRewrites = mask
+	defer func() { syntax.VerifDisableRewrites = 0 }()
+	return compileLocked(pattern, co)
+}
+
+// TreeDumpGated parses with the given rewrites off and returns the tree dump.
+func TreeDumpGated(mask uint32, pattern string, opts int) string {
+	gateMu.Lock()
+	defer gateMu.Unlock()
+	syntax.VerifDisableRewrites = mask
+	defer func() { syntax.VerifDisableRewrites = 0 }()
+	t, err := syntax.Parse(pattern, syntax.ParseOptions{RegexOptions: syntax.RegexOptions(opts)})
+	if err != nil {
+		return "error"
+	}
+	return t.Dump()
+}
+
+// ParseLocked runs syntax.Parse under the gate's read lock.
+func ParseLocked(pattern string, po syntax.ParseOptions) (*syntax.RegexTree, error) {
+	gateMu.RLock()
+	defer gateMu.RUnlock()
+	return syntax.Parse(pattern, po)
 }
 
 // DefaultTimeout bounds catastrophic backtracking in workloads that need a result;
